@@ -518,6 +518,8 @@ func report(prop string, ld *loaded, ws []*Worker, results []*HarnessResult, kno
 	replayed := 0
 	incomplete := false
 	vacuous := []string{}
+	unreached := []string{}
+	defer func() { lastUnreached = nil }()
 	totalPaths := map[string]int{}
 	nontrivial := 0
 	var samples []interface{}
@@ -542,7 +544,12 @@ func report(prop string, ld *loaded, ws []*Worker, results []*HarnessResult, kno
 		}
 		for _, c := range expectedCovers(ld, r.Harness) {
 			if r.Covers[c] == 0 {
-				vacuous = append(vacuous, r.Harness+":"+c)
+				if r.Truncated {
+					// the exploration hit its budget: the situation may lie in the unexplored part
+					unreached = append(unreached, r.Harness+":"+c)
+				} else {
+					vacuous = append(vacuous, r.Harness+":"+c)
+				}
 			}
 		}
 		for _, s := range r.Samples {
@@ -640,7 +647,11 @@ func report(prop string, ld *loaded, ws []*Worker, results []*HarnessResult, kno
 	}
 	if incomplete {
 		fmt.Printf("INCOMPLETE property=%s unwind=%d unsupported=%d undecided=%d truncated=%v\n", prop, totalPaths["unwind"], totalPaths["unsupported"], totalPaths["undecided"], anyTruncated(results))
+		if len(unreached) > 0 {
+			fmt.Printf("INCOMPLETE property=%s situations not reached before the budget ran out: %s\n", prop, strings.Join(unreached, ", "))
+		}
 	}
+	lastUnreached = unreached
 	writeEvidence(prop, ld, ws, results, stats, totalPaths, nontrivial, samples, violations, knownLines, incomplete, vacuous, replayed, wall)
 	if exit == 0 {
 		fmt.Printf("OK property=%s tier=%s harnesses=%d paths=%d queries=%d (sat %d, unsat %d, unknown %d) solver=%.1fs wall=%.1fs\n",
@@ -729,6 +740,8 @@ func nativeSamples(prop string, ld *loaded, results []*HarnessResult) (checked i
 	return
 }
 
+var lastUnreached []string
+
 func writeReplay(path string, f *Failure) {
 	doc := map[string]interface{}{"harness": f.Harness, "inputs": f.Inputs, "msg": f.Msg, "where": f.Where, "kind": f.Kind, "thorough": tier == "thorough"}
 	b, _ := json.MarshalIndent(doc, "", " ")
@@ -799,32 +812,33 @@ func writeEvidence(prop string, ld *loaded, ws []*Worker, results []*HarnessResu
 		decisions += w.decisions
 	}
 	cov := map[string]interface{}{
-		"evaluations":                         queries + domDec,
-		"distinct_nontrivial":                 nontrivial,
-		"rule":                                "evaluations = decisions discharged about symbolic conditions (branch feasibility, run-time panic obligations, assertions): by the SMT solver (decided_by_smt_solver) or, for conditions over a single byte-sized input, by exhaustive evaluation over its 256-value domain (decided_by_byte_domain_pass; a sample is re-decided by the solver); transitions = decisions taken along all paths (incl. forks over harness choices); distinct_nontrivial = completed paths (each a distinct decision sequence) that took at least one solver-decided branch on a symbolic input; every path is one equivalence class of inputs, decided for all its members at once",
-		"states":                              sumPaths(paths),
-		"transitions":                         decisions + 1,
-		"decided_by_smt_solver":               queries,
-		"decided_by_byte_domain_pass":         domDec,
-		"domain_verdicts_rechecked_by_solver": crossChecked,
-		"domain_solver_disagreements":         crossMismatch,
-		"traces_validated_against_impl":       replayed,
-		"samples":                             samples,
-		"exhaustive":                          !incomplete && len(vacuous) == 0,
-		"paths":                               paths,
-		"queries":                             map[string]int{"sat": stats.Sat, "unsat": stats.Unsat, "unknown": stats.Unknown, "solver_errors": stats.Errors, "fallback_decided": stats.Fallbacks},
-		"solver_s":                            stats.Time.Seconds(),
-		"solver":                              "z3 5.1.0 (z3-new -in, push/pop), unknowns retried on z3 4.8.12 and cvc5 1.0",
-		"functions_encoded":                   nfuncs,
-		"functions_by_package":                funcs,
-		"goflow_functions":                    goflowFuncs,
-		"intrinsics_hit":                      intrList,
-		"harnesses":                           hres,
-		"known_findings":                      knownLines,
-		"vacuous":                             vacuous,
-		"map_ranges":                          mapRanges,
-		"load_s":                              ld.loadS,
-		"ssa_build_s":                         ld.buildS,
+		"evaluations":                          queries + domDec,
+		"distinct_nontrivial":                  nontrivial,
+		"rule":                                 "evaluations = decisions discharged about symbolic conditions (branch feasibility, run-time panic obligations, assertions): by the SMT solver (decided_by_smt_solver) or, for conditions over a single byte-sized input, by exhaustive evaluation over its 256-value domain (decided_by_byte_domain_pass; a sample is re-decided by the solver); transitions = decisions taken along all paths (incl. forks over harness choices); distinct_nontrivial = completed paths (each a distinct decision sequence) that took at least one solver-decided branch on a symbolic input; every path is one equivalence class of inputs, decided for all its members at once",
+		"states":                               sumPaths(paths),
+		"transitions":                          decisions + 1,
+		"decided_by_smt_solver":                queries,
+		"decided_by_byte_domain_pass":          domDec,
+		"domain_verdicts_rechecked_by_solver":  crossChecked,
+		"domain_solver_disagreements":          crossMismatch,
+		"traces_validated_against_impl":        replayed,
+		"samples":                              samples,
+		"exhaustive":                           !incomplete && len(vacuous) == 0,
+		"paths":                                paths,
+		"queries":                              map[string]int{"sat": stats.Sat, "unsat": stats.Unsat, "unknown": stats.Unknown, "solver_errors": stats.Errors, "fallback_decided": stats.Fallbacks},
+		"solver_s":                             stats.Time.Seconds(),
+		"solver":                               "z3 5.1.0 (z3-new -in, push/pop), unknowns retried on z3 4.8.12 and cvc5 1.0",
+		"functions_encoded":                    nfuncs,
+		"functions_by_package":                 funcs,
+		"goflow_functions":                     goflowFuncs,
+		"intrinsics_hit":                       intrList,
+		"harnesses":                            hres,
+		"known_findings":                       knownLines,
+		"vacuous":                              vacuous,
+		"situations_not_reached_within_budget": lastUnreached,
+		"map_ranges":                           mapRanges,
+		"load_s":                               ld.loadS,
+		"ssa_build_s":                          ld.buildS,
 	}
 	seed, _ := strconv.Atoi(os.Getenv("VERIF_SEED"))
 	ev := map[string]interface{}{
